@@ -8,6 +8,7 @@
 #include <string.h>
 #include <unistd.h>
 #include <fcntl.h>
+#include <errno.h>
 #include "snoopy.h"
 #include "configuration.h"
 #include "configfile.h"
@@ -18,13 +19,18 @@ int main(int argc, char **argv) {
     static char line[1 << 20]; static unsigned char buf[1 << 19];
     if (argc < 2) return 2;
     snprintf(verif_cfgpath, 4096, "%s/snoopy.ini", argv[1]);
-    while (fgets(line, sizeof line, stdin)) {
+    /* caller states: ambient errno at the moment of the call, descriptor 0 closed (the next open() returns 0) */
+    int amb = getenv("VERIF_CONF_ERRNO") ? atoi(getenv("VERIF_CONF_ERRNO")) : 0;
+    FILE *in = stdin;
+    if (getenv("VERIF_CONF_CLOSE0")) { in = fdopen(dup(0), "r"); close(0); }
+    while (fgets(line, sizeof line, in)) {
         size_t L = strlen(line); while (L && (line[L - 1] == '\n')) line[--L] = 0;
         if (!strcmp(line, "-")) { unlink(verif_cfgpath); }
         else {
             size_t n = L / 2; for (size_t i = 0; i < n; i++) buf[i] = (unsigned char)(hexv(line[2 * i]) * 16 + hexv(line[2 * i + 1]));
             int fd = open(verif_cfgpath, O_WRONLY | O_CREAT | O_TRUNC, 0644); if (write(fd, buf, n) != (ssize_t)n) return 3; close(fd);
         }
+        errno = amb;
         snoopy_init();
         snoopy_configfile_option_t *reg = snoopy_configfile_optionRegistry_getAll();
         for (int i = 0; 0 != strcmp(reg[i].name, ""); i++) {
